@@ -643,7 +643,7 @@ def p7(ctx: Ctx):
 # P8 NEXT-PAIRING (idiom rule)
 
 
-@rule("P8", "NEXT-PAIRING: the FOR stack is popped once for every loop a NEXT closes", ["C02"], floor=1, soft=True)
+@rule("P8", "NEXT-PAIRING: the FOR stack is popped once for every loop a NEXT closes", ["C02", "C07"], floor=1, soft=True)
 def p8(ctx: Ctx):
     py = pyfacts(ctx)
     if "BasicNextPatcherVisitor" not in py.classes:
@@ -669,6 +669,24 @@ def p8(ctx: Ctx):
     named_path_pops = not guarded_empty_only or any(
         isinstance(n, ast.For) and any(isinstance(c, ast.Call) and isinstance(c.func, ast.Attribute) and c.func.attr in ("pop", "remove") for c in ast.walk(n)) for n in ast.walk(vn)
     )
+    # on the path with an explicit list, one loop is closed per listed variable: the pop must repeat
+    if named_path_pops:
+        named = [pn for pn in pops if not any(re.search(r"len\([\w.]+\)\s*==\s*0|not\s+[\w.]+exp_list", c) for c in _enclosing_tests(vn, pn))]
+        if named:
+            in_loop = False
+            for pn in named:
+                for n in ast.walk(vn):
+                    if isinstance(n, (ast.For, ast.While)) and any(c is pn for c in ast.walk(n)):
+                        if isinstance(n, ast.While) or "exp_list" in unparse(n.iter) or "var_list" in unparse(n.iter):
+                            in_loop = True
+            ctx.ob(
+                "BasicNextPatcherVisitor.named-next:per-variable",
+                in_loop,
+                "" if in_loop else "`NEXT J,I` closes two loops but the FOR stack is popped once: a following bare NEXT is paired with an already closed loop and the outer FOR is never closed",
+                file=VISITORS_REL,
+                line=vn.lineno,
+                witness="" if in_loop else "FOR K:FOR I:FOR J:NEXT J,I:NEXT",
+            )
     ctx.ob(
         "BasicNextPatcherVisitor.named-next",
         named_path_pops,
